@@ -20,6 +20,29 @@ hp = os.path.join(HERE, "hook_commits.txt")
 if os.path.exists(hp):
     hooks_commits = [l.split()[0] for l in open(hp) if l.strip() and not l.startswith("#")]
 
+TECH = {
+ "C01": "Rocq/Coq proof: conservation / non-negativity / escrow invariants by induction over all ledger op histories (incl. NST adjustments); model tied to the real keepers by a per-op store-level correspondence check; share kernels tied to the Go source by a regenerated translation",
+ "C02": "Rocq/Coq proof: rounding laws over the whole numeric domain about share kernels REGENERATED from the Go source on every run (Go-AST -> Gallina translator) + share-ledger invariants by induction over histories; correspondence check against the real keepers",
+ "C03": "Rocq/Coq proof: key-string-level index / never-early / release-exact / aggregate invariants by induction over histories, prefix-scan exactness lemma; correspondence check on raw store dumps of the real delegation module",
+ "C04": "Rocq/Coq proof: per-call slash statement (proportion, reductions, frame, idempotence) proved of the model for all states and lifted over histories; the same boolean evaluated on before/after dumps of the real keepers",
+ "C05": "Rocq/Coq proof: closed-form voting-power statement at every epoch end over all histories, monotonicity / rounding bounds over the whole domain; correspondence check through the real epoch hooks",
+ "C06": "Rocq/Coq proof: `apply prev (diff) = top-k eligible` for all inputs with a verified sort, lifted over histories and linked to the proved key-registry model; monitor applies the real CometBFT UpdateWithChangeSet",
+ "C07": "Rocq/Coq proof: 18-clause registry invariant preserved by every operation over all histories (injectivity, index agreement, slashable-until-matured traces); correspondence check on raw operator/dogfood store dumps",
+ "C08": "Rocq/Coq proof: order-independence of every inventoried map-range site for ALL permutations (schedule as explicit list); inventory tied to the source by a go/types site scanner with AST fingerprints; replicated-process execution as correspondence (partial: runtime scheduling outside the model)",
+ "C09": "Rocq/Coq proof: atomicity characterisation of check/write scripts under the msg / precompile / per-item-cache wrappers, instantiated per entry point; byte-level store + oracle-memory digests around failing calls on the real app",
+ "C10": "Rocq/Coq proof: finite case analysis over all entry points x caller classes lifted over payloads/states (accepted => authorized), entry-point inventory scanner; correspondence through the real ante handler, msg router and EVM calls",
+ "C11": "Rocq/Coq proof: no-panic theorems under explicit guard invariants for each block-level path (bitmap parser total for all byte strings, slash, AVS statistics, fee allocation, maturity); recover()-instrumented runs of the real app incl. malformed tx streams (partial: decoding/SDK only fuzzed)",
+ "C12": "Rocq/Coq proof: threshold / median / once-per-round / closed-form no-gap (any number of feeders, successor feeders, params updates) / retention over all histories; correspondence through the real ante chain, msg server, EndBlock and ABCI",
+ "C13": "Rocq/Coq proof: admission and counting implications, not-admitted-no-change frame, per-(validator,feeder,round) bound over all histories; correspondence through the real fee-less ante branch and CreatePrice",
+ "C14": "Rocq/Coq proof: bisimulation between live oracle memory and memory rebuilt from the committed store (restart_safe_iff for all never-stopped histories, side condition band_clear); twin execution of the real app restarted at every height",
+ "C15": "Rocq/Coq proof: epoch clock theorems (first, tick, start-time law, hook log = expected log, independence) by induction over all block-time sequences; correspondence against the real keeper and the full app with wrapped hooks",
+ "C16": "Rocq/Coq proof: queue invariants and trace theorems (registered on time, not released early, no stranded, drained) over all histories incl. parameter changes and downtime; correspondence on raw dogfood/delegation store dumps",
+ "C17": "Rocq/Coq proof: supply / moved / booked = moved / solvency / proportionality over all histories of epochs for arbitrary validator and staker lists on scaled integers; correspondence through the real epoch hooks observing bank and module state",
+ "C18": "Rocq/Coq proof: generic export/import round-trip lemma over prefixed stores instantiated per module (full for 6 modules, characterised loss for the rest); real Export/Validate/InitGenesis at every height with continuation comparison",
+ "C19": "Rocq/Coq proof: per-tx and per-block accounting (sender, collector, gas bounds, nonce, zero-sum, solvency, failed => no effect) for single and multi-message txs and base-fee chains, interpreter as measured oracle input; real ABCI DeliverTx of signed txs (partial: opcode semantics trusted)",
+ "C20": "Rocq/Coq proof: registry uniqueness invariants, accept <=> window/guard conjunctions at exact boundaries, statistics of the whole epoch-end step over all histories; correspondence through the real AVS precompile methods and msg server with real BLS keys",
+}
+
 checks, not_app, claimed = [], [], []
 for p in props:
     pid = p["id"]
@@ -43,7 +66,7 @@ for p in props:
         },
         "level_note": P.get("level_note") or ("Trusted: Coq 8.16.1 kernel; Go harness + generators; hand-written Gallina transcription tied to the code by "
                                                "differential execution only. " + " | ".join(P.get("assumptions", []))[:900]),
-        "technique": P.get("technique") or "Rocq/Coq machine-checked proof about an executable model + model/implementation correspondence check",
+        "technique": TECH.get(pid) or P.get("technique") or "Rocq/Coq machine-checked proof about an executable model + model/implementation correspondence check",
     })
 
 m = {
